@@ -291,6 +291,13 @@ impl<C: Clone> Slot<C> {
     }
 }
 
+struct StopOnDrop<'a>(&'a std::sync::atomic::AtomicBool);
+impl Drop for StopOnDrop<'_> {
+    fn drop(&mut self) {
+        self.0.store(true, Ordering::Relaxed);
+    }
+}
+
 /// Re-execute one case alone (`<this binary> replay <file>`) with a 60 s limit, twice; true = it never returned.
 pub fn confirm_hang(property: &str, sub: &str, config: &str, profile: &str, case: &Value) -> bool {
     let dir = std::env::var("VERIF_SHM_DIR").unwrap_or_else(|_| "/dev/shm".into());
@@ -438,6 +445,10 @@ pub fn install_quiet_panic_hook() {
             "<non-string panic>".to_string()
         };
         let loc = info.location().map(|l| format!("{}:{}", l.file(), l.line())).unwrap_or_default();
+        // a panic in the harness itself (outside `guard`) would otherwise end the process silently
+        if std::env::var_os("VERIF_LOUD_PANICS").is_some() || !loc.contains("/repo/") {
+            eprintln!("panic: {msg} @ {loc}");
+        }
         LAST_PANIC.with(|p| *p.borrow_mut() = Some(format!("{msg} @ {loc}")));
     }));
 }
@@ -523,9 +534,9 @@ pub fn run_prop<C, S>(
     let render = |_w: usize, c: &C| to_json(c);
     let results = std::thread::scope(|sc| {
         sc.spawn(|| stall_monitor(&slots, &stop, &render, sub, ctx));
-        let r = run_prop_workers(ctx, sub, n_workers, per, &slots, &make_strategy, &to_json, &test);
-        stop.store(true, Ordering::Relaxed);
-        r
+        // the flag is set on every exit path (also when a worker panics), or the scope would wait for the monitor for ever
+        let _stop_guard = StopOnDrop(&stop);
+        run_prop_workers(ctx, sub, n_workers, per, &slots, &make_strategy, &to_json, &test)
     });
     let mut merged = Local::new();
     for (l, v) in results {
@@ -639,9 +650,8 @@ pub fn run_prop_jobs<J, C, S>(
     let render = |w: usize, c: &C| to_json(&jobs[w], c);
     let results = std::thread::scope(|sc| {
         sc.spawn(|| stall_monitor(&slots, &stop, &render, sub, ctx));
-        let r = run_prop_jobs_workers(ctx, sub, jobs, cases_per_job, &slots, &make_strategy, &to_json, &test);
-        stop.store(true, Ordering::Relaxed);
-        r
+        let _stop_guard = StopOnDrop(&stop);
+        run_prop_jobs_workers(ctx, sub, jobs, cases_per_job, &slots, &make_strategy, &to_json, &test)
     });
     let mut merged = Local::new();
     for (l, v) in results {
